@@ -381,6 +381,7 @@ def rand_err_args(rng, kind, nmax=None, tiny=False, force_int=None):
         args["optimization_options"] = {"optimize_with_safe_paths": rng.random() < 0.5,
                                         "optimize_with_safe_sequences": False,
                                         "optimize_with_safe_zero_edges": rng.random() < 0.5}
+    ensure_err_domain(args)
     return args, {"node_mode": node_mode, "is_int": is_int, "paths": paths}
 
 
@@ -400,3 +401,21 @@ def adversarial_fd_instance(rng):
             a_ = rng.randrange(0, len(es) - n_ + 1); cons.append(es[a_:a_ + n_])
     cov = rng.choice([0.5, 0.5, 0.75, 1.0])
     return G, cons, cov, is_int
+
+
+def ensure_err_domain(args):
+    """C07/C08 quantify over inputs with at least one NON-IGNORED weighted element (DESIGN §6 #24: otherwise the k-models
+    take a max over nothing).  Ignored = listed in elements_to_ignore, error_scaling 0, or (node origin) without the
+    attribute.  Repairs generated arguments in place: drops scale-0 entries first, then ignore entries."""
+    import props
+    G = args["G"]; origin = args.get("flow_attr_origin", "edge"); attr = args["flow_attr"]
+
+    def ok():
+        return bool(props.err_elements(G, attr, origin, args.get("elements_to_ignore") or [], args.get("error_scaling") or {}))
+    if ok():
+        return args
+    if args.get("error_scaling"):
+        args["error_scaling"] = {x: s for x, s in args["error_scaling"].items() if s != 0}
+    if not ok() and args.get("elements_to_ignore"):
+        args["elements_to_ignore"] = []
+    return args
